@@ -98,6 +98,12 @@ ExpLoadsFrom(p) ==
 Cond_C20_PathExact == (IsW /\ Ev.passive /\ ~Ev.consume /\ Ev.target = "match" /\ ~Ev.mp /\ Ev.e = "nil") =>
     Ev.loads = ExpLoadsFrom(0)
 
+\* with the preload selector as the target the whole target entity follows, in depth-first link order
+\* (BT[k].cls lists an entity's blocks in that order, the entity's own root block first)
+Cond_C20_PreloadPathExact == (IsW /\ Ev.passive /\ ~Ev.consume /\ Ev.target = "preload" /\ ~Ev.mp /\ Ev.e = "nil") =>
+    LET t == EntAt(Ev.segs) IN
+    Ev.loads = ExpLoadsFrom(0) \o (IF t = 0 THEN <<>> ELSE Tail(BT[t].cls))
+
 \* the sequence of requests is a function of the DAG and the path alone: a second traversal in the same process
 \* (fresh store, link system and root node) requests exactly what the first one did
 Cond_C20_PathSame == (IsW /\ Ev.again) => Ev.loads = Ev.prevLoads
@@ -105,6 +111,7 @@ Cond_C20_PathSame == (IsW /\ Ev.again) => Ev.loads = Ev.prevLoads
 Chk(nm, c) == c \/ PrintT(<<"VIOL", nm, l - 1>>)
 Inv_NoPanic == Chk("Inv_NoPanic", Cond_NoPanic)
 Inv_C20_PathExact == Chk("Inv_C20_PathExact", Cond_C20_PathExact)
+Inv_C20_PreloadPathExact == Chk("Inv_C20_PreloadPathExact", Cond_C20_PreloadPathExact)
 Inv_C20_PathSame == Chk("Inv_C20_PathSame", Cond_C20_PathSame)
 Inv_C03_Target == Chk("Inv_C03_Target", Cond_C03_Target)
 Inv_C03_NothingElse == Chk("Inv_C03_NothingElse", Cond_C03_NothingElse)
